@@ -297,6 +297,17 @@ def observe(prob, fmt, solver):
     ob = {'pre': _probe(V, obj, cons), 'clen': [len(c) for c in cons], 'ctype': [c.type() for c in cons]}
     p = op(obj, cons)
     ob['exc'] = None
+    # the accuracy fields of the underlying solvers.lp call (public API) are recorded: after status 'unknown' the
+    # values are None as documented, and the escape clause of C05 is decided from the solver's own residuals
+    from cvxopt import solvers as _solvers
+    _orig = _solvers.lp
+    cap = {}
+
+    def _lp(*a, **k):
+        r = _orig(*a, **k)
+        cap['sol'] = dict((kk, r.get(kk)) for kk in ('status', 'primal infeasibility', 'dual infeasibility', 'gap', 'relative gap'))
+        return r
+    _solvers.lp = _lp
     try:
         if solver == 'default':
             p.solve(fmt)
@@ -305,6 +316,9 @@ def observe(prob, fmt, solver):
     except Exception as ex:
         ob['exc'] = [type(ex).__name__, str(ex)[:200]]
         return ob
+    finally:
+        _solvers.lp = _orig
+    ob['sol'] = cap.get('sol')
     ob['status'] = p.status
     ob['vals'] = dict((n, _lst(V[n].value)) for n in ('x', 'y', 'z'))
     ob['mult'] = [_lst(c.multiplier.value) for c in cons]
@@ -450,7 +464,8 @@ def judge(R, ob, cfg, st):
         if shape == 'no-inequality' and et == 'TypeError' and 'at least one inequality' in em:
             out('refused:no-inequality(TypeError)')
             return viol
-        if not R.rank_ok and et in ('ValueError', 'ArithmeticError', 'ZeroDivisionError') and shape == 'general':
+        if not R.rank_ok and (et in ('ValueError', 'ArithmeticError', 'ZeroDivisionError') and shape == 'general' or
+                              et == 'ValueError' and 'Rank' in em):
             out('rank-deficient:' + et)
             return viol
         out('exception:' + et)
@@ -626,7 +641,15 @@ def judge(R, ob, cfg, st):
 
 
 def _near_optimal(R, ob):
-    """the values left behind by an 'unknown' solve are feasible and optimal to 1e-5 for the problem as written."""
+    """the iterate at which an 'unknown' solve stopped is feasible and optimal to 1e-5: decided from the values left
+    behind if there are any, otherwise (values None, as documented) from the accuracy fields of the solvers.lp call."""
+    if all(ob['vals'][n] is None for n in R.names):
+        sol = ob.get('sol') or {}
+        try:
+            return sol['primal infeasibility'] <= 1e-5 and sol['dual infeasibility'] <= 1e-5 and \
+                (sol['gap'] <= 1e-5 or (sol['relative gap'] is not None and sol['relative gap'] <= 1e-5))
+        except Exception:
+            return False
     if any(not _shape_ok(ob['vals'][n], len(pwl.COLS[n])) for n in R.names):
         return False
     pt = _point(ob['vals'], R.names)
